@@ -171,13 +171,9 @@ func ReadFile(r Reader, out interface{}, cb func(val unsafe.Pointer, rb *Resourc
 		if err != nil {
 			return fmt.Errorf("reading data block length. %w", err)
 		}
-		if cap(compressed) < int(dataLength) {
-			compressed = make([]byte, dataLength)
-		} else {
-			compressed = compressed[:dataLength]
-		}
-		if n, err := io.ReadFull(r, compressed); err != nil {
-			return fmt.Errorf("reading %d bytes of compressed data: %w after %d bytes", dataLength, err, n)
+		compressed, err = readN(r, compressed[:0], dataLength)
+		if err != nil {
+			return fmt.Errorf("reading %d bytes of compressed data: %w after %d bytes", dataLength, err, len(compressed))
 		}
 		uncompressed, err := decoder.decompress(compressed)
 		if err != nil {
@@ -261,9 +257,35 @@ func readBytes(r Reader) ([]byte, error) {
 	if err != nil {
 		return nil, err
 	}
-	v := make([]byte, l)
-	_, err = io.ReadFull(r, v)
-	return v, err
+	return readN(r, nil, l)
+}
+
+// readN appends exactly n bytes from r to buf. The length comes from the file,
+// so it is not trusted: a negative length is an error, and the buffer grows as
+// data actually arrives rather than being allocated up front, so a corrupt
+// length costs no more memory than the file has bytes.
+func readN(r io.Reader, buf []byte, n int64) ([]byte, error) {
+	if n < 0 {
+		return buf, fmt.Errorf("negative length %d", n)
+	}
+	const chunk = 1 << 20
+	for remaining := n; remaining > 0; {
+		step := remaining
+		if step > chunk {
+			step = chunk
+		}
+		start := len(buf)
+		if need := start + int(step); need <= cap(buf) {
+			buf = buf[:need]
+		} else {
+			buf = append(buf, make([]byte, step)...)
+		}
+		if m, err := io.ReadFull(r, buf[start:]); err != nil {
+			return buf[:start+m], err
+		}
+		remaining -= step
+	}
+	return buf, nil
 }
 
 func (fh FileHeader) schema() (schema Schema, err error) {
